@@ -517,10 +517,12 @@ def run(ctx):
 LEVEL_TEXT = ("Lean 4 proofs about the Config bookkeeping model (view = obliterate(merge(levels + modifications), deletions)): "
               "one-step theorems set_then_get, del_then_absent, untouched_paths_keep_merged_value for EVERY base (= across any "
               "reload), navigated_write_is_valid; history_refines_dict_partial / reachable_reads_like_dict (for every history "
-              "of writes and deletions through navigated proxies interleaved with reloads, the configuration reads like the "
+              "of operations of the WHOLE op set - every_op_is_its_edits: get/set/del, pop, popitem, clear, setdefault, "
+              "update(mapping, **kw) reduce to write/delete edits - interleaved with reloads, the configuration reads like the "
               "plain nested dict 'current merge + the same edits'; side condition: dict-valued writes go to keys that are "
               "sections in no lower level - findings #17/#18 have counterexample theorems), no_internal_error and "
-              "navigated_write_succeeds (type consistency is an invariant; merge, obliterate, excise never raise); the model "
+              "navigated_write_succeeds (type consistency is an invariant; merge, obliterate, excise never raise), outputs_agree "
+              "(navigation errors and values read, section-valued included, agree with the dict); the model "
               "is tied to invoke.config on every run by a differential correspondence check over exhaustive short and random "
               "long operation histories, and a plain nested Python dict driven by the same operations is the always-on oracle")
 TECHNIQUE = ("Lean 4 theorems over all histories (simulation by path-function semantics, base-independent step lemmas) + "
